@@ -120,11 +120,11 @@ class _APEv2Data(object):
         # Try to find a header or footer.
 
         # Check for a simple footer.
-        try:
-            fileobj.seek(-32, 2)
-        except IOError:
+        if get_size(fileobj) < 32:
+            # too small for a footer; a failing seek is a real I/O error
             fileobj.seek(0, 2)
             return
+        fileobj.seek(-32, 2)
         if fileobj.read(8) == b"APETAGEX":
             fileobj.seek(-8, 1)
             self.footer = self.metadata = fileobj.tell()
